@@ -81,11 +81,11 @@ PROPS = {
     },
     "C17": {
         "props_file": "Props/C17.v",
-        "theorems": ["c17_accepted_loadable", "c17_accepted_instantiable", "c17_accepted_parts", "c17_update_immutable", "c17_update_accepts_unchanged"],
+        "theorems": ["c17_accepted_loadable", "c17_f18_witness", "c17_accepted_instantiable", "c17_accepted_parts", "c17_update_immutable", "c17_update_accepts_unchanged"],
         "families": [{"name": "validate", "n_quick": 2500, "n_thorough": 50000}],
         "rule": "validate: three kinds of case. (1) a JobConfig (names incl. 49/50 chars; all concurrency policies and maxConcurrency values; schedule absent / without cron / disabled / singular expression / expressions list / both, from a pool of 12 parsable and 9 unparsable expressions incl. blank entries, H forms, quartz 6-7 fields; 10 time zones; 0-3 options of the five types, valid and invalid, duplicate/invalid names, foreign configs; templates with in- and out-of-range maxAttempts / retryDelay / pendingTimeout, parallelism of every shape and completion strategy, Pod templates valid/invalid with every restartPolicy) under a random cron dynamic configuration (format, hashNames, hashSeconds, hashFields, default time zone), mutated then validated as the webhooks do; then cronschedule.New + Bump, NewJobFromJobConfig; for accepted ones additionally a Job by configName with values for the required options through JobPatcher, ValidateJob/ValidateJobCreate and NewPod per index. (2) a Job through ValidateJob. (3) an (old, new) pair differing in random subsets of the ten immutable fields (variants with known Semantic.DeepEqual classes, nil vs empty map), the kill timestamp relative to the clock, started or not, plus mutable fields. non-trivial = accepted; distinct by term",
         "trusted": ["oracles, shipped per case as tables computed with the same functions the code calls: cron.Parser.Parse (furiko-io/cronexpr) for hash ids \"\" and the JobConfig key, tzutils.ParseTimezone, validation.ValidatePodTemplateSpec (Kubernetes core validation) per restartPolicy, the withMatrix key regexp", "unknown option types are not generated"],
-        "assumptions": ["c17_accepted_loadable assumes that whether an expression parses does not depend on the hash id (validation uses the empty id, the scheduler the JobConfig key) and that the configured default time zone parses; the first is checked by the stream on every generated expression (signature C17/parsability-depends-on-hash-id), the second is an operator input", "validation and loading are compared under one dynamic configuration; a configuration change between admission and loading is outside the statement", "'the instantiated Job passes defaulting and validation and yields tasks' is judged by the monitor on the real Mutator/Validator/NewPod for every accepted JobConfig; as theorems: the schedule loads, the defaults render, the template is the validated one"],
+        "assumptions": ["c17_accepted_loadable assumes a named JobConfig (the hash id is its namespace/name; with generateName the name is not known at admission) and that the operator's default time zone parses. Until the repair of finding F18 (commit a3dbc74 in /repo) it also assumed that whether an expression parses does not depend on the hash id - false of the real parser (c17_f18_witness; the stream now generates such expressions in its valid pool)"],
         "level_text": "Theorems for all specs and oracle verdicts: an accepted JobConfig loads in the scheduler under its own key and its option defaults render (so NewJobFromJobConfig cannot fail and one accepted object cannot abort cronschedule.New); acceptance decomposes into name length, template, concurrency, schedule and option rules; an accepted Job update changes none of the ten immutable fields, freezes the start policy once started and the kill timestamp once passed, and conversely an update changing none of them is accepted. The decision structure of Validator and of the loader is tied to the code by the validate stream; the end-to-end clause is judged by the monitor on the real consumers.",
         "level_note": "Trusted: Coq kernel + vm_compute; the oracles above.",
     },
@@ -181,7 +181,7 @@ PROPS = {
     },
     "C10": {
         "props_file": "Props/C10.v",
-        "theorems": ["c10_success_sound", "c10_failed_sound", "c10_exclusive", "c10_decided_iff_complete", "c10_finished_no_live", "c10_succeeded_real"],
+        "theorems": ["c10_success_sound", "c10_failed_sound", "c10_exclusive", "c10_decided_iff_complete", "c10_finished_no_live", "c10_succeeded_real", "c10_recorded_success_is_real"],
         "families": [{"name": "jobpure", "n_quick": 1500, "n_thorough": 60000}, {"name": "jobsync", "n_quick": 120, "n_thorough": 3000, "shard_cap": 40}],
         "rule": "jobpure: generated (parallelism shape none/count/keys/matrix, strategy, maxAttempts, kill/deletion/admission-error flags, per-index attempt histories with every outcome incl. OOM, pre-recorded kills, flapping Pods, lost Pods, stored refs lagging the Pods, unsorted refs) evaluated by the real GenerateTaskRefs/UpdateJobTaskRefs/UpdateJobStatusFromTaskRefs/ComputeMissingIndexesForCreation; non-trivial = at least one ref or Pod; distinct by (shape, #refs, #pods, phase). jobsync: histories of the real reconciler (see C08)",
         "trusted": JOB_TRUSTED,
